@@ -451,6 +451,9 @@ class Engine(NumericMixin, EvalMixin, ExecMixin, CallMixin, BuiltinMixin):
             for ob in obs:
                 t0 = time.time()
                 status, model = self.solve(ob)
+                if status == 'unknown':
+                    # verdicts must not flip under machine load: one retry with three times the budget
+                    status, model = self.solve(ob, self.timeout_ms * 3)
                 rec['time'] += time.time() - t0
                 if status == 'unsat':
                     continue
